@@ -53,7 +53,8 @@ Section PointCloud.
   (* np.average(points, axis=0) *)
   Definition centroid (ps : list (vec3 F)) : vec3 F := vdivs O (vsum ps) (nofZ O (Z.of_nat (length ps))).
   (* vg.almost_zero(v): allclose(v, 0, rtol=0, atol=1e-8) *)
-  Definition atol8 : F := nfrac O 1 100000000.
+  (* the binary64 number written 1e-8 in the source, exactly *)
+  Definition atol8 : F := nfrac O 3022314549036573 302231454903657293676544.
   Definition almost_zero (v : vec3 F) : bool :=
     nleb O (nabs O (vx v)) atol8 && nleb O (nabs O (vy v)) atol8 && nleb O (nabs O (vz v)) atol8.
   (* vg.reject(v, from_v) = v - dot(v, normalize(from_v)) * normalize(from_v) *)
